@@ -2,6 +2,7 @@ package main
 
 import (
 	"go/ast"
+	"go/token"
 	"go/types"
 	"strings"
 )
@@ -90,16 +91,61 @@ func runC20(c *Ctx) {
 		c.Incomplete("successor-lookup-with-wraparound", rel+".(ketamaHashring).GetN", "", "function not found")
 	} else {
 		okSearch, okWrap := false, false
+		info := fn.Info()
+		rn := namesOf(fn).Recv
+		secs := rn + ".sections"
+		hv := lhsOfCallTo(fn, "HashWithPrefix", 0) // the series hash
+		var pos types.Object                        // the variable holding the search result
 		ast.Inspect(fn.Body(), func(nd ast.Node) bool {
 			switch v := nd.(type) {
-			case *ast.CallExpr:
-				if strings.HasPrefix(stmtText(p, v), "sort.Search(len(c.sections),func(iint)bool{returnc.sections[i].hash>=v})") {
+			case *ast.AssignStmt:
+				// pos = [uint64(] sort.Search(len(sections), func(k int) bool { return sections[k].hash >= hash }) [)]
+				if len(v.Lhs) != 1 || len(v.Rhs) != 1 {
+					return true
+				}
+				r := unparen(v.Rhs[0])
+				if conv, ok := r.(*ast.CallExpr); ok && len(conv.Args) == 1 {
+					if tv, ok := info.Types[conv.Fun]; ok && tv.IsType() {
+						r = unparen(conv.Args[0])
+					}
+				}
+				call, ok := r.(*ast.CallExpr)
+				if !ok || len(call.Args) != 2 {
+					return true
+				}
+				if f := calleeOf(info, call); f == nil || f.Pkg() == nil || f.Pkg().Path() != "sort" || f.Name() != "Search" {
+					return true
+				}
+				lit, ok := unparen(call.Args[1]).(*ast.FuncLit)
+				if !ok || len(lit.Body.List) != 1 || len(lit.Type.Params.List) != 1 || len(lit.Type.Params.List[0].Names) != 1 {
+					return true
+				}
+				ret, ok := lit.Body.List[0].(*ast.ReturnStmt)
+				if !ok || len(ret.Results) != 1 {
+					return true
+				}
+				k := lit.Type.Params.List[0].Names[0].Name
+				if canon(call.Args[0]) == "len("+secs+")" && canon(ret.Results[0]) == secs+"["+k+"].hash>="+hv {
 					okSearch = true
+					pos = objOf(info, v.Lhs[0])
 				}
-			case *ast.IfStmt:
-				if stmtText(p, v.Cond) == "i==numSections" && stmtText(p, v.Body) == "{i=0}" {
-					okWrap = true
-				}
+			}
+			return true
+		})
+		ast.Inspect(fn.Body(), func(nd ast.Node) bool {
+			// if pos == <number of sections> { pos = 0 }
+			v, ok := nd.(*ast.IfStmt)
+			if !ok || pos == nil || len(v.Body.List) != 1 || v.Else != nil {
+				return true
+			}
+			be, ok := unparen(v.Cond).(*ast.BinaryExpr)
+			if !ok || be.Op != token.EQL || objOf(info, be.X) != pos {
+				return true
+			}
+			bound := expandDefText(fn, info, be.Y)
+			as, ok := v.Body.List[0].(*ast.AssignStmt)
+			if ok && len(as.Lhs) == 1 && len(as.Rhs) == 1 && objOf(info, as.Lhs[0]) == pos && canon(as.Rhs[0]) == "0" && strings.Contains(bound, "len("+secs+")") {
+				okWrap = true
 			}
 			return true
 		})
@@ -149,14 +195,37 @@ func runC20(c *Ctx) {
 		c.Incomplete("replicas-by-clockwise-walk", rel+".calculateSectionReplicas", "", "function not found")
 	} else {
 		startOK, advOK := false, false
+		info := fn.Info()
+		// roles: from = the second argument of nextSectionReplica; next = what its result is bound to;
+		// i = the key of the loop over the sections
+		var fromObj, nextObj, keyObj types.Object
 		ast.Inspect(fn.Body(), func(nd ast.Node) bool {
-			if as, ok := nd.(*ast.AssignStmt); ok {
-				switch stmtText(p, as) {
-				case "j:=i-1":
-					startOK = true
-				case "j=next":
-					advOK = true
+			switch v := nd.(type) {
+			case *ast.RangeStmt:
+				if keyObj == nil && v.Key != nil {
+					keyObj = objOf(info, v.Key)
 				}
+			case *ast.AssignStmt:
+				if len(v.Lhs) == 1 && len(v.Rhs) == 1 {
+					if call, ok := unparen(v.Rhs[0]).(*ast.CallExpr); ok && len(call.Args) >= 2 {
+						if f := calleeOf(info, call); f != nil && f.Name() == "nextSectionReplica" {
+							fromObj, nextObj = objOf(info, call.Args[1]), objOf(info, v.Lhs[0])
+						}
+					}
+				}
+			}
+			return true
+		})
+		ast.Inspect(fn.Body(), func(nd ast.Node) bool {
+			as, ok := nd.(*ast.AssignStmt)
+			if !ok || len(as.Lhs) != 1 || len(as.Rhs) != 1 || fromObj == nil || objOf(info, as.Lhs[0]) != fromObj {
+				return true
+			}
+			if be, ok := unparen(as.Rhs[0]).(*ast.BinaryExpr); ok && be.Op == token.SUB && objOf(info, be.X) == keyObj && canon(be.Y) == "1" {
+				startOK = true
+			}
+			if objOf(info, as.Rhs[0]) == nextObj && nextObj != nil {
+				advOK = true
 			}
 			return true
 		})
